@@ -235,12 +235,18 @@ func (p *HTTPProxy) ServeHTTP(w http.ResponseWriter, r *http.Request) {
 	switch {
 	case isWebsocket(r):
 		r.URL = targetURL
+		// the websocket handler dials the upstream itself: use the
+		// configured dial timeout and keep-alive like the http transports do
+		dialer := &net.Dialer{
+			Timeout:   p.Config.DialTimeout,
+			KeepAlive: p.Config.KeepAliveTimeout,
+		}
 		if targetURL.Scheme == "https" || targetURL.Scheme == "wss" {
 			h = newWSHandler(targetURL.Host, func(network, address string) (net.Conn, error) {
-				return tls.Dial(network, address, tr.(*http.Transport).TLSClientConfig)
+				return tls.DialWithDialer(dialer, network, address, tr.(*http.Transport).TLSClientConfig)
 			}, p.Stats.WSConn)
 		} else {
-			h = newWSHandler(targetURL.Host, net.Dial, p.Stats.WSConn)
+			h = newWSHandler(targetURL.Host, dialer.Dial, p.Stats.WSConn)
 		}
 
 	case accept == "text/event-stream":
